@@ -38,7 +38,7 @@ SUITE=$(python3 - <<'PY'
 import json, xml.etree.ElementTree as ET
 base=set(json.load(open('/root/.vp/BASELINE.json'))['stable_pass'])
 try:
-    t=ET.parse('/tmp/confirm/target/nextest/pb/junit.xml').getroot()
+    t=ET.parse('/tmp/confirm/repo/target/nextest/pb/junit.xml').getroot()
 except Exception as e:
     print("NOJUNIT"); raise SystemExit
 ok=set()
